@@ -39,9 +39,19 @@ type task struct {
 }
 
 // tagErr is raised by pointer: the handler must receive the very same pointer.
-type tagErr struct{ i int }
+type tagErr struct {
+	i   int
+	pad int // > 0: the messages of the string panic and of this error are padded to exactly this many bytes
+}
 
-func (e *tagErr) Error() string { return fmt.Sprintf("tagErr %d", e.i) }
+func (e *tagErr) Error() string { return padTo(fmt.Sprintf("tagErr %d", e.i), e.pad) }
+
+func padTo(s string, n int) string {
+	if n <= len(s)+1 {
+		return s
+	}
+	return s + ":" + strings.Repeat("x", n-len(s)-1)
+}
 
 var nilMap map[int]int
 
@@ -49,7 +59,7 @@ var nilMap map[int]int
 func raise(i, k int, ptr *tagErr) {
 	switch k % 6 {
 	case 0:
-		panic(fmt.Sprintf("p%d", i))
+		panic(padTo(fmt.Sprintf("p%d", i), ptr.pad))
 	case 1:
 		panic(ptr)
 	case 2:
@@ -98,6 +108,7 @@ type limCase struct {
 	LogDepth int  // > 0: the configured handler is the library's own goz.LogPanic(logger, LogDepth); the logger must receive one line per panic naming the value
 	WaitForm int  // how "Wait() without timeout" is spelled: 0 l.Wait(), 1 l.Wait(empty...) with an empty non-nil slice, 2 with a nil slice
 	Churn    int  // this many functions that return at once are pushed through the Limiter before the final saturation probe (counters inside the Limiter must not drift)
+	MsgLen   int  // > 0: panic messages (string panics, error panics) are padded to exactly this many bytes
 	Expire   bool // (not under the race detector) a timed Wait expires while functions run; after they finished the Limiter is used again
 }
 
@@ -109,6 +120,10 @@ func gen(t *rapid.T) (c limCase) {
 		c.WaitForm = rapid.SampledFrom([]int{0, 0, 1, 2}).Draw(t, "waitForm")
 		c.LogDepth = rapid.SampledFrom([]int{0, 0, 0, 0, 1, 5, 33, 64, 500}).Draw(t, "logDepth")
 		c.Warmup = rapid.IntRange(0, 3).Draw(t, "warmup") == 0
+		c.MsgLen = rapid.SampledFrom([]int{0, 0, 0, 0, 0, 0, 15, 16, 17, 63, 64, 65, 127, 128, 129, 255, 256, 257, 511, 512, 513, 1023, 1024, 1025, 4095, 4096, 4097, 65535, 65536, 65537}).Draw(t, "msgLen")
+		if !c.Handler && c.MsgLen > 1025 {
+			c.MsgLen = 1025 // the default reporter writes to the standard output of the test process: keep that small
+		}
 		c.Churn = rapid.SampledFrom([]int{0, 0, 0, 0, 0, 0, 300, 300, 300, 5000, 66000, 70000}).Draw(t, "churn")
 	}()
 	n := rapid.IntRange(1, 24).Draw(t, "ntasks")
@@ -507,7 +522,7 @@ func run(c limCase, r *pb.Rec) error {
 	nilCount, goexits := 0, 0
 	for i, tk := range c.Tasks {
 		w.gates[i] = make(chan struct{})
-		w.ptrs[i] = &tagErr{i}
+		w.ptrs[i] = &tagErr{i, c.MsgLen}
 		if tk.B == bNil {
 			bodies = append(bodies, nil)
 			nilCount++
@@ -601,6 +616,9 @@ func run(c limCase, r *pb.Rec) error {
 		used := make([]bool, len(lines))
 		for _, want := range wantPanics {
 			text := fmt.Sprintf("panic: %v  Traceback:", want) // up to the delimiter: "p1" must not claim the line of "p14"
+			if len(text) > 64 {
+				text = text[:40] // a padded message: its beginning (which ends in ":x...") identifies the line; whether a logger may clip long texts is not the property's business
+			}
 			found := false
 			for j, ln := range lines {
 				if !used[j] && strings.HasPrefix(ln, text) {
@@ -812,6 +830,8 @@ func run(c limCase, r *pb.Rec) error {
 	r.ClassIf(goexits > 0, "function ended by runtime.Goexit")
 	r.ClassIf(c.WaitForm == 1, "Wait called with an empty non-nil duration slice")
 	r.ClassIf(!c.Handler && len(wantPanics) > 0, "panic without handler")
+	r.ClassIf(len(wantPanics) > 0 && c.MsgLen >= 255 && c.MsgLen <= 257, "panic message of exactly 255..257 bytes")
+	r.ClassIf(len(wantPanics) > 0 && c.MsgLen >= 4095, "panic message of >= 4095 bytes")
 	r.ClassIf(int(w.maxInside) == n, "limit reached")
 	r.NonTrivialIf(len(wantPanics) > 0 && saturated)
 	return nil
@@ -845,8 +865,8 @@ func describe(vs []any) string {
 
 func TestLimiter(t *testing.T) {
 	st := pb.Stats("limiter")
-	st.SetRule("scenarios: limit -2..6 (below 1 => 3), 1..24 functions that return / yield / park on a harness gate / panic (before or after the gate), drawn gate release order, with or without panic handler, GOMAXPROCS 1..16; the harness releases one gate at a time, each time from a quiescent state, and after Wait() submits n more parked functions that must all run concurrently; monitors: concurrency never above n, exactly-once execution, Wait() only after all finished, handler receives every panic value itself (strings, pointers by identity, runtime faults by type and message), an expired timed Wait followed by idle and reuse (plain mode), no slot leaked (state-based: submitter parked in the Limiter's channel send while fewer than n functions hold slots); schedules inside the Limiter are sampled, not owned; non-trivial = a panic followed by a saturation phase")
-	st.Require("second Limiter saturated alongside", "timed Wait on the idle Limiter", "handler checked against a fault raised by the runtime", "nil func submitted", "panic handler configured after the Limiter was first used", "library LogPanic handler with a depth above 32", "function ended by runtime.Goexit", "more than 65536 functions completed on one Limiter before the saturation probe", "Wait called with an empty non-nil duration slice", "timed Wait expired while functions ran, Limiter reused after going idle", "saturated: submitter blocked with all slots held", "panics raised", "limit below 1 (default 3)", "panic without handler", "limit reached")
+	st.SetRule("scenarios: limit -2..6 (below 1 => 3), 1..24 functions that return / yield / park on a harness gate / panic (before or after the gate), drawn gate release order, with or without panic handler, panic messages (string and error values) as drawn or padded to exactly 15..17, 63..65, 127..129, 255..257, 511..513, 1023..1025, 4095..4097, 65535..65537 bytes (at most 1025 when the default reporter prints them), GOMAXPROCS 1..16; the harness releases one gate at a time, each time from a quiescent state, and after Wait() submits n more parked functions that must all run concurrently; monitors: concurrency never above n, exactly-once execution, Wait() only after all finished, handler receives every panic value itself (strings, pointers by identity, runtime faults by type and message), an expired timed Wait followed by idle and reuse (plain mode), no slot leaked (state-based: submitter parked in the Limiter's channel send while fewer than n functions hold slots); schedules inside the Limiter are sampled, not owned; non-trivial = a panic followed by a saturation phase")
+	st.Require("panic message of exactly 255..257 bytes", "panic message of >= 4095 bytes", "second Limiter saturated alongside", "timed Wait on the idle Limiter", "handler checked against a fault raised by the runtime", "nil func submitted", "panic handler configured after the Limiter was first used", "library LogPanic handler with a depth above 32", "function ended by runtime.Goexit", "more than 65536 functions completed on one Limiter before the saturation probe", "Wait called with an empty non-nil duration slice", "timed Wait expired while functions ran, Limiter reused after going idle", "saturated: submitter blocked with all slots held", "panics raised", "limit below 1 (default 3)", "panic without handler", "limit reached")
 	// the default panic handler prints to stdout: keep the test output clean (swapped once, not per case)
 	if dn, err := os.OpenFile(os.DevNull, os.O_WRONLY, 0); err == nil {
 		old := os.Stdout
